@@ -115,6 +115,15 @@ FIXED_PROGRAMS = [
     'else if pair in ("US", "CA") { return "tuple" weighted 1 } else if pair == "(\'US\', \'CA\')" { return "tuple-text" weighted 1 } else if pair == "[\'US\', \'CA\']" { return "list-text" weighted 1 } '
     'else if n == 1 { return "one" weighted 1 } else if n == "1" { return "one-text" weighted 1 } else if n == 1.0 { return "one-float" weighted 1 } else if n == "1.0" { return "float-text" weighted 1 } '
     'else if s == "x" { return "x" weighted 1 } else if s == "\'x\'" { return "quoted-x" weighted 1 } else { return "rest" weighted 1 } }',
+    # the same label listed more than once keeps every slot in place; weights whose decimals start with 0, whole and round weights
+    'def f18 { splitters: uid if x == 1 { return "blue" weighted 1, "green" weighted 1, "blue" weighted 1, "red" weighted 0, "green" weighted 2 } else { return "A" weighted 1, "B" weighted 2, "A" weighted 3 } }',
+    'def f19 { splitters: uid if x == 1 { return "x" weighted 1.05, "y" weighted 20.02, "z" weighted 0.05 } else if x == 2 { return "w" weighted 10.0, "v" weighted 100, "u" weighted 0.0, "t" weighted 1000.001 } '
+    'else { return 1.0 weighted 10.05, 10 weighted 1.0, "10.0" weighted 100.0 } }',
+    # salts that look like template / interpolation syntax are plain text
+    'def f20 { salt: "$tenant" splitters: uid return "A" weighted 1, "B" weighted 1, "C" weighted 1 }',
+    'def f21 { salt: "$str" splitters: uid, tenant return "A" weighted 1, "B" weighted 1, "C" weighted 1 }',
+    'def f22 { salt: "${uid}%(uid)s{uid}$uid" splitters: uid return "A" weighted 1, "B" weighted 1, "C" weighted 1 }',
+    'def f23 { salt: "2024" splitters: uid if z == "02134" { return "zip" weighted 1 } else if z == "1e5" { return "exp" weighted 1 } else if z == " 12 " { return "pad" weighted 1 } else if z == "inf" { return "inf" weighted 1 } else { return "A" weighted 1, "B" weighted 1 } }',
 ]
 
 
@@ -225,6 +234,8 @@ def pipeline_diff(req):
             ev2 = None
             fail("rebuild", {"text": text, "what": "a second ExperimentEvaluator of the same text raised %s: %s" % (type(e).__name__, str(e)[:200])})
         envs = dsl_ref.gen_envs(rnd, exp, req.get("envs", 6))
+        if (only or pi < nfixed) and "big_" not in text[:12]:
+            envs += dsl_ref.cover_envs(rnd, exp)         # hand-written programs: every value near every literal, for every field
         spl, ids = dsl_ref.fields(exp)
         for f in spl:
             if f not in ids:
@@ -291,7 +302,12 @@ def pipeline_diff(req):
                     fail("rebuild", dict(case, what="a second evaluator built from the same text behaves differently", second=enc(list(g2)) if g2[0] == "raise" else ["group", enc(dec_value(g2[1]))]))
             # ---- C09: extra keyword arguments and argument order are irrelevant
             e3 = dict(reversed(list(env.items())))
-            e3["zz_unrelated_extra"] = rnd.choice(SPECIAL_VALUES)
+            e3["zz_unrelated_extra"] = rnd.choice(SPECIAL_VALUES + [10 ** 5000, -(10 ** 4400), b"bytes", (1, "t"), [1, 2], {"k": 1}, 1e308 * 10, float("nan")])
+            for f in list(env):
+                if "_" in f.strip("_"):
+                    e3[f.replace("_", "-")] = "dashed-twin-of-%s" % f        # a key that is NOT a field, however similar it looks
+                e3[f.upper() if f != f.upper() else f.lower()] = "case-twin"
+                e3[f + "_"] = "suffixed-twin"
             got3 = call_outcome(ev, e3)
             if (got3[0], got3[1] if got3[0] == "raise" else dec_value(got3[1])) != (got[0], got[1] if got[0] == "raise" else dec_value(got[1])):
                 fail("irrelevance", dict(case, what="extra keyword argument / argument order changed the outcome", observed2=enc(list(got3)) if got3[0] == "raise" else ["group", enc(dec_value(got3[1]))]))
